@@ -267,21 +267,21 @@ Print Assumptions jar_unique.
    (3xx-5xx, e.g. a 500 SOAP fault) are dropped because getcookies() is only reached after
    u2open() returned - reply_cookies_stored_refuted, reported by the harness as the known finding
    C15:cookies-of-error-replies-dropped.  Guarded form: *)
-Theorem reply_cookies_stored_partial : forall P k c j q p,
+Theorem reply_cookies_stored_partial : forall P k c j prev q p,
   p_challenge p = None -> is_2xx (p_status p) = true ->
-  snd (model_step P k c j q p) = fold_left jar_apply (map (resolve (q_path q)) (p_cookies p)) j.
+  snd (model_step P k c j prev q p) = fold_left jar_apply (map (resolve (q_path q)) (p_cookies p)) j.
 Proof. exact delivered_replies_update_jar_l. Qed.
 Print Assumptions reply_cookies_stored_partial.
 
 Theorem reply_cookies_stored_refuted :
-  exists P k c j q p,
+  exists P k c j prev q p,
     p_challenge p = None /\ p_cookies p <> [] /\
-    snd (model_step P k c j q p) <> fold_left jar_apply (map (resolve (q_path q)) (p_cookies p)) j.
+    snd (model_step P k c j prev q p) <> fold_left jar_apply (map (resolve (q_path q)) (p_cookies p)) j.
 Proof. exact reply_cookies_stored_refuted_l. Qed.
 Print Assumptions reply_cookies_stored_refuted.
 
-Theorem error_replies_leave_jar : forall P k c j q p,
-  p_challenge p = None -> is_2xx (p_status p) = false -> snd (model_step P k c j q p) = j.
+Theorem error_replies_leave_jar : forall P k c j prev q p,
+  p_challenge p = None -> is_2xx (p_status p) = false -> snd (model_step P k c j prev q p) = j.
 Proof. exact error_replies_leave_jar_l. Qed.
 Print Assumptions error_replies_leave_jar.
 
@@ -292,3 +292,48 @@ Example cookies_nonvacuous :
   cookies_for (jar_of h) [47; 115; 47; 120]%N = [(a, [51]%N)] /\
   cookies_for (spec_live h) [47; 115; 47; 120]%N = [(a, [51]%N)].
 Proof. split; reflexivity. Qed.
+
+(* ------------------------------------------------------------------ *)
+(* the caller-owned headers dict across sends                          *)
+(* ------------------------------------------------------------------ *)
+From SV Require Import C15.WritebackProofs.
+
+(* send() writes urllib's capitalised copies back into the caller's dict
+   (request.headers.update(u2request.headers)); the dict returns when the Request object is sent
+   again or the dict is shared by several Requests.  For EVERY dict: a later send finds, under
+   every name, the value it would have found without the write-back ... *)
+Theorem writeback_keeps_wire : forall k h,
+  dict_get k (u2_headers (writeback h)) = dict_get k (u2_headers h).
+Proof. exact writeback_wire_l. Qed.
+Print Assumptions writeback_keeps_wire.
+
+(* ... compresses (or not) the same way ... *)
+Theorem writeback_keeps_body : forall h msg, wire_body (writeback h) msg = wire_body h msg.
+Proof. exact writeback_body_l. Qed.
+Print Assumptions writeback_keeps_body.
+
+(* ... and never finds a Cookie entry the caller did not put there: the jar's Cookie header is
+   one of urllib's unredirected headers, which are not written back, so the jar stays the only
+   source of cookies on every later send (cookie_header_matches_history applies to all of them) *)
+Theorem writeback_has_no_cookie : forall h,
+  no_ci l_cookie h = true ->
+  no_ci l_cookie (writeback h) = true /\ dict_get l_cookie (u2_headers (writeback h)) = None.
+Proof. exact writeback_no_cookie_l. Qed.
+Print Assumptions writeback_has_no_cookie.
+
+(* the whole second send through the same transport (credentials set again into the dict the
+   first send left): the same headers, the same body treatment *)
+Theorem resend_carries_the_same : forall P kd c h0 k,
+  no_ci l_authorization h0 = true ->
+  let h1 := add_credentials P kd c h0 in
+  dict_get k (u2_headers (add_credentials P kd c (writeback h1))) = dict_get k (u2_headers h1) /\
+  (forall msg, wire_body (add_credentials P kd c (writeback h1)) msg = wire_body h1 msg).
+Proof. exact resend_carries_the_same_l. Qed.
+Print Assumptions resend_carries_the_same.
+
+Example writeback_nonvacuous :
+  writeback [([83; 79; 65; 80; 65; 99; 116; 105; 111; 110]%N, [49]%N); ([120; 45; 97]%N, [50]%N)]
+  = [([83; 79; 65; 80; 65; 99; 116; 105; 111; 110]%N, [49]%N); ([120; 45; 97]%N, [50]%N);
+     ([83; 111; 97; 112; 97; 99; 116; 105; 111; 110]%N, [49]%N); ([88; 45; 97]%N, [50]%N)].
+     (* {"SOAPAction": "1", "x-a": "2"} gains "Soapaction": "1" and "X-a": "2" *)
+Proof. reflexivity. Qed.
